@@ -44,6 +44,7 @@ fn main() {
         }
     }
     let code = match id {
+        "C01" => c01::run_check(replay),
         "C02" => c02::run_check(replay),
         "C03" => c03::run_check(replay),
         "C04" => c04::run_check(&args, replay),
